@@ -388,6 +388,40 @@ theorem inv_step_merge_witness :
     (∀ o ∈ [(⟨1, 1, 1, 2⟩ : SaveMerge.Rect), ⟨4, 4, 5, 5⟩], SaveMerge.overlap (SaveMerge.sortRect 3 3 2 1) o = false) ∧
     SaveMerge.anchorOf (SaveMerge.mergeCell [⟨1, 1, 1, 2⟩, ⟨4, 4, 5, 5⟩] 3 3 2 1) 3 2 = (2, 1) := by decide
 
+/-- **inv_step (UnmergeCell, round 5 second wave)**: on a stored list without overlapping ranges,
+`UnmergeCell` (corners in any order) removes exactly the stored ranges its argument range intersects and
+keeps the others in order; the list stays free of overlaps, so save + open returns it and every redirect
+unchanged; a cell all of whose containing ranges are kept is redirected as before, and every cell of the
+argument range is unmerged (reads and writes go to the cell itself). -/
+theorem inv_step_unmerge (l : List SaveMerge.Rect) (x1 y1 x2 y2 : Nat)
+    (h : l.Pairwise fun a b => SaveMerge.overlap b a = false) :
+    (∀ m, m ∈ SaveMerge.unmergeCell l x1 y1 x2 y2 ↔
+      m ∈ l ∧ SaveMerge.overlap (SaveMerge.sortRect x1 y1 x2 y2) m = false) ∧
+    (SaveMerge.unmergeCell l x1 y1 x2 y2).Sublist l ∧
+    (SaveMerge.unmergeCell l x1 y1 x2 y2).Pairwise (fun a b => SaveMerge.overlap b a = false) ∧
+    SaveMerge.normalize (SaveMerge.unmergeCell l x1 y1 x2 y2) = SaveMerge.unmergeCell l x1 y1 x2 y2 ∧
+    (∀ c r, SaveMerge.anchorOf (SaveMerge.normalize (SaveMerge.unmergeCell l x1 y1 x2 y2)) c r =
+      SaveMerge.anchorOf (SaveMerge.unmergeCell l x1 y1 x2 y2) c r) ∧
+    (∀ c r, (∀ m ∈ l, SaveMerge.inside m c r = true →
+        SaveMerge.overlap (SaveMerge.sortRect x1 y1 x2 y2) m = false) →
+      SaveMerge.anchorOf (SaveMerge.unmergeCell l x1 y1 x2 y2) c r = SaveMerge.anchorOf l c r) ∧
+    (∀ c r, SaveMerge.inside (SaveMerge.sortRect x1 y1 x2 y2) c r = true →
+      SaveMerge.anchorOf (SaveMerge.unmergeCell l x1 y1 x2 y2) c r = (c, r)) := by
+  have he := SaveMerge.unmergeCell_of_disjoint l x1 y1 x2 y2 h
+  have hp := SaveMerge.unmergeCell_pairwise l x1 y1 x2 y2 h
+  have hs := SaveMerge.normalize_of_disjoint _ hp
+  refine ⟨fun m => by rw [he]; simp [List.mem_filter], by rw [he]; exact List.filter_sublist, hp, hs,
+    fun c r => by rw [hs], fun c r hk => ?_, fun c r hi => ?_⟩
+  · rw [he]; exact SaveMerge.anchorOf_filter_keep l _ c r (fun m hm hi => by simp [hk m hm hi])
+  · rw [he]; exact SaveMerge.anchorOf_filter_inside l _ c r hi
+
+/-- non-vacuity of `inv_step_unmerge`: `UnmergeCell(C2:B2)` on `A1:A2`, `B1:C3`, `D4:E5` removes `B1:C3` only -/
+theorem inv_step_unmerge_witness :
+    SaveMerge.unmergeCell [⟨1, 1, 1, 2⟩, ⟨2, 1, 3, 3⟩, ⟨4, 4, 5, 5⟩] 3 2 2 2 = [⟨1, 1, 1, 2⟩, ⟨4, 4, 5, 5⟩] ∧
+    SaveMerge.anchorOf (SaveMerge.unmergeCell [⟨1, 1, 1, 2⟩, ⟨2, 1, 3, 3⟩, ⟨4, 4, 5, 5⟩] 3 2 2 2) 3 3 = (3, 3) ∧
+    SaveMerge.anchorOf (SaveMerge.unmergeCell [⟨1, 1, 1, 2⟩, ⟨2, 1, 3, 3⟩, ⟨4, 4, 5, 5⟩] 3 2 2 2) 5 5 = (4, 4) := by
+  decide
+
 /-! ## `inv_step`: `SetCellStr`'s shared-string bookkeeping (table vs index map) -/
 
 /-- **inv_step (SetCellStr bookkeeping)**: if every binding of the index map points at an item with that
